@@ -670,9 +670,9 @@ package dig
 //@   ensures[C10:as-many-members-as-stored] reached(storesToRoot_1) && err == nil ==> valid(v) && typ(v) == pt.Type
 //@   loop range stores #1: invariant[C10:result-is-a-slice-of-the-group-type] valid(result) && typ(result) == pt.Type
 //@   loop range stores #1: invariant len(stores) == S.nanc && (forall j int :: 0 <= j && j < len(stores) ==> isScope(stores[j]) && scopeOf(stores[j]) == S.anc[j])
-//@   site call (dig.containerStore).getValueGroup #1: assert[C10:members-read-from-every-enclosing-scope,C08:members-read-from-every-enclosing-scope] isScope($recv) && scopeOf($recv) == S.anc[$i]
+//@   site call (dig.containerStore).getValueGroup #1: assert[C10:members-read-from-every-enclosing-scope,C08:members-read-from-every-enclosing-scope,C11:members-read-from-every-enclosing-scope] isScope($recv) && scopeOf($recv) == S.anc[$i]
 //@   site call (dig.containerStore).getValueGroup #1: assert[C10:members-of-this-group-only,C09:members-of-this-group-only] $arg0 == pt.Group && $arg1 == elem(pt.Type)
-//@   site call reflect.Append #1: assert[C10:every-member-appended] $arg0 == result && $arg1 == ret(getValueGroup_1, 0)
+//@   site call reflect.Append #1: assert[C10:every-member-appended,C11:every-member-appended] $arg0 == result && $arg1 == ret(getValueGroup_1, 0)
 
 // ---------------------------------------------------------------------------
 // writers: which key receives which value (C01, C09, C10)
@@ -1209,16 +1209,16 @@ package dig
 //@   loop range allScopes #1: complete[C06:every-listed-scope-snapshotted,C05:every-listed-scope-snapshotted]
 //@   requires s0 != nil && ctor != nil && kind(typeOf(ctor)) == kFunc()
 //@   requires treeInv()
-//@   modifies map(Scope.providers), Scope.nodes, elems(*constructorNode), Scope.isVerifiedAcyclic, graphHolder.nodes, graphHolder.snap, elems(*graphNode), map(constructorNode.orders), elems(*Scope)
+//@   modifies map(Scope.providers), Scope.nodes, elems(*constructorNode), Scope.isVerifiedAcyclic, graphHolder.nodes, graphHolder.snap, elems(*graphNode), map(constructorNode.orders), elems(*Scope), $dfsFin, $dfsCnt
 //@   modifies ProvideInfo.ID, ProvideInfo.Inputs, ProvideInfo.Outputs, elems(string), elems(any)
 //@   requires opts.Info != nil ==> allocated(opts.Info)
 //@   allocates
 //@   let tgt = opts.Exported ? s0.anc[s0.nanc - 1] : s0
 //@   let all = ret(appendSubscopes_1, 0)
 //@   ensures[C03:registering-runs-nothing,C17:registering-runs-nothing] $nrun == old($nrun) && $ncb == old($ncb) && $ev == old($ev)
-//@   ensures[C06:rejected-provide-keeps-every-provider-list,C09:rejected-provide-keeps-every-provider-list] err != nil ==> (forall x *Scope, k key :: existed(x) ==> x.providers[k] == old(x.providers[k]))
-//@   ensures[C06:rejected-provide-keeps-every-node-list] err != nil ==> (forall x *Scope :: existed(x) ==> x.nodes == old(x.nodes))
-//@   ensures[C06:rejected-provide-rolls-back-every-listed-graph,C05:rejected-provide-rolls-back-every-listed-graph] err != nil && reached(appendSubscopes_1) ==> (forall k int :: 0 <= k && k < len(all) ==> (let g = all[k].gh in len(g.nodes) == old(len(g.nodes))))
+//@   ensures[C06:rejected-provide-keeps-every-provider-list,C09:rejected-provide-keeps-every-provider-list,C14:rejected-provide-keeps-every-provider-list] err != nil ==> (forall x *Scope, k key :: existed(x) ==> x.providers[k] == old(x.providers[k]))
+//@   ensures[C06:rejected-provide-keeps-every-node-list,C14:rejected-provide-keeps-every-node-list] err != nil ==> (forall x *Scope :: existed(x) ==> x.nodes == old(x.nodes))
+//@   ensures[C06:rejected-provide-rolls-back-every-listed-graph,C05:rejected-provide-rolls-back-every-listed-graph,C14:rejected-provide-rolls-back-every-listed-graph] err != nil && reached(appendSubscopes_1) ==> (forall k int :: 0 <= k && k < len(all) ==> (let g = all[k].gh in len(g.nodes) == old(len(g.nodes))))
 //@   ensures[C06:no-graph-loses-a-node] forall g *graphHolder, j int :: existed(g) && 0 <= j && j < old(len(g.nodes)) && j < len(g.nodes) ==> g.nodes[j] == old(g.nodes[j])
 //@   ensures[C06:rejected-provide-leaves-the-info-untouched,C18:rejected-provide-leaves-the-info-untouched] err != nil && opts.Info != nil ==> opts.Info.ID == old(opts.Info.ID) && opts.Info.Inputs == old(opts.Info.Inputs) && opts.Info.Outputs == old(opts.Info.Outputs)
 //@   let prefixes = forall g *graphHolder, j int :: existed(g) && 0 <= j && j < old(len(g.nodes)) && j < len(g.nodes) ==> g.nodes[j] == old(g.nodes[j])
@@ -1304,7 +1304,7 @@ package dig
 //@   let dn = ret(newDecoratorNode_1, 0)
 //@   let ks = ret(findResultKeys_1, 0)
 //@   ensures[C03:decorating-runs-nothing,C17:decorating-runs-nothing] $nrun == old($nrun) && $ncb == old($ncb) && $ev == old($ev)
-//@   ensures[C06:rejected-decorate-keeps-every-decorator-registry,C12:rejected-decorate-keeps-every-decorator-registry] err != nil ==>
+//@   ensures[C06:rejected-decorate-keeps-every-decorator-registry,C12:rejected-decorate-keeps-every-decorator-registry,C14:rejected-decorate-keeps-every-decorator-registry] err != nil ==>
 //@        (forall x *Scope, k key :: existed(x) ==> (k in x.decorators) == old(k in x.decorators) && x.decorators[k] == old(x.decorators[k]))
 //@   ensures[C12:accepted-decorator-registered-for-each-of-its-keys] err == nil ==> reached(findResultKeys_1) && (forall i int :: 0 <= i && i < len(ks) ==> ks[i] in s.decorators && s.decorators[ks[i]] == dn)
 //@   ensures[C12:one-decorator-per-key] err == nil ==> reached(findResultKeys_1) && (forall i int :: 0 <= i && i < len(ks) ==> !old(ks[i] in s.decorators))
@@ -1447,12 +1447,12 @@ package dig
 //@ func (s *Scope) Provide(constructor, opts) (err)
 //@   requires s != nil && treeInv()
 //@   requires forall i int :: 0 <= i && i < len(opts) ==> opts[i] != nil
-//@   modifies map(Scope.providers), Scope.nodes, elems(*constructorNode), Scope.isVerifiedAcyclic, graphHolder.nodes, graphHolder.snap, elems(*graphNode), map(constructorNode.orders), elems(*Scope)
+//@   modifies map(Scope.providers), Scope.nodes, elems(*constructorNode), Scope.isVerifiedAcyclic, graphHolder.nodes, graphHolder.snap, elems(*graphNode), map(constructorNode.orders), elems(*Scope), $dfsFin, $dfsCnt
 //@   modifies ProvideInfo.ID, ProvideInfo.Inputs, ProvideInfo.Outputs, elems(string), elems(any)
 //@   allocates
 //@   ensures[C03:providing-runs-nothing,C17:providing-runs-nothing] $nrun == old($nrun) && $ncb == old($ncb) && $ev == old($ev)
 //@   ensures[C14:bad-constructor-is-an-error] (constructor == nil || kind(typeOf(constructor)) != kFunc()) ==> err != nil && is(err, errInvalidInput) && unchangedAll()
-//@   ensures[C06:provide-rejected-before-registration-changes-nothing] err != nil && !reached(provide_1) ==> unchangedAll()
+//@   ensures[C06:provide-rejected-before-registration-changes-nothing,C14:provide-rejected-before-registration-changes-nothing] err != nil && !reached(provide_1) ==> unchangedAll()
 //@   ensures[C13:provide-errors-are-wrapped-once,C06:provide-errors-are-wrapped-once] reached(provide_1) && ret(provide_1, 0) != nil ==> is(err, errProvide) && as(err, errProvide).Reason == ret(provide_1, 0)
 //@   ensures[C06:provide-verdict-is-provides-verdict] reached(provide_1) ==> (err == nil) == (ret(provide_1, 0) == nil)
 //@   loop range opts #1: invariant[C06:options-collected-without-touching-the-container] unchangedAll() && treeInv() && (cap(options.As) == 0 || fresh(options.As))
@@ -1538,7 +1538,7 @@ package dig
 //@ func (s *Scope) Invoke(function, opts) (err)
 //@   requires s != nil && treeInv()
 //@   requires forall i int :: 0 <= i && i < len(opts) ==> opts[i] != nil
-//@   modifies @knot, Scope.isVerifiedAcyclic, graphHolder.nodes, elems(*graphNode), map(constructorNode.orders), InvokeInfo.Inputs, invokeOptions.Info
+//@   modifies @knot, Scope.isVerifiedAcyclic, graphHolder.nodes, elems(*graphNode), map(constructorNode.orders), InvokeInfo.Inputs, invokeOptions.Info, $dfsFin, $dfsCnt
 //@   allocates
 //@   maypanic
 //@   let results = ret(invokerFn_1, 0)
